@@ -35,7 +35,10 @@ class Genuine:
         self.att_sk = sk_from_int(_h("att", s["att"]))
         self.wallet = attest.wallet(s["wallet"])
         self.pubs = {p: pub_uncompressed(k) for p, k in self.wallet.items()}
-        w.pubkeys = {path_bin(p): self._alt("pubkey:" + p, self.pubs[p]) for p in self.pubs}
+        # (byte 0 of a public key is the point-encoding prefix: 04 -> 06/07 names the same key,
+        #  so an alteration of "the key" is placed in its coordinates)
+        w.pubkeys = {path_bin(p): self.pubs[p][:1] + self._alt("pubkey:" + p, self.pubs[p][1:])
+                     for p in self.pubs}
         self.ud = None
         self.ui_msg = self.ui_sig = None
         self.seed = {}
